@@ -414,11 +414,13 @@ def send_tx(
             break
 
     recipient_scriptpubkey = bits.script.scriptpubkey(recipient_addr)
-    change_scriptpubkey = (
-        bits.script.scriptpubkey(change_addr)
-        if change_addr
-        else bits.script.scriptpubkey(sender_addr)
-    )
+    if change_addr:
+        change_scriptpubkey = bits.script.scriptpubkey(change_addr)
+    elif bits.is_point(sender_addr) or bits.is_addr(sender_addr):
+        change_scriptpubkey = bits.script.scriptpubkey(sender_addr)
+    else:
+        # raw scriptpubkey
+        change_scriptpubkey = sender_addr
     txouts = [
         txout(int(amount_to_send - miner_fee), recipient_scriptpubkey),
     ]
